@@ -36,7 +36,8 @@ func runC20(c *core.Ctx) {
 	c.Rule("C20.authz", "A2: in authorize/authorizeForward the inner handler is called iff authorizeRequest(r,user) returned nil, with the same request (and user)")
 	c.Rule("C20.method", "A7: requiredPrivilegeForHTTPMethod = {HEAD,OPTIONS→none; GET→read; POST,PATCH,PUT→write; DELETE→delete; else error}")
 	c.Rule("C20.request", "A3/A1: authorizeRequest authorises Action{Resource: APIResource(TrimPrefix(r.URL.Path, BasePath)), Privilege: requiredPrivilegeForHTTPMethod(r.Method)} and returns nil only when both the privilege lookup and AuthorizeAction returned nil")
-	c.Rule("C20.nearest", "A1/A3: AuthorizeAction: NoPrivileges ∨ admin ⇒ allow; ¬IsAbs ⇒ error; every index of the privilege table is path.Clean(action.Resource) or path.Dir of the previous key; a hit decides (allow iff p&priv≠0 ∨ p==All) and is never followed by another lookup; no hit ⇒ deny")
+	c.Rule("C20.newuser", "A7: F56: NewUser stores each grant under path.Clean(resource) and merges (|=) the masks of keys that clean to the same path")
+	c.Rule("C20.nearest", "A1/A3: AuthorizeAction: NoPrivileges ∨ admin ⇒ allow; ¬IsAbs ⇒ error; every index of the privilege table is path.Clean(action.Resource) or path.Dir of the previous key; a hit decides (allow iff p&(priv|All)≠0: all is a bit of the mask, F55) and is never followed by another lookup; no hit ⇒ deny")
 	c.Rule("C20.write", "A2/A3: serveWriteLine reaches WritePoints only after AuthorizeAction(Action{DatabaseResource(db), WritePrivilege}) returned nil, and db is the value passed to WritePoints")
 	c.Rule("C20.mux", "A1: ServeMux.Handler answers a request whose path differs from cleanPath(path) with a redirect to the cleaned path, never with a registered handler; rewritePreview re-enters ServeHTTP")
 	c.Rule("C20.dbclean", "A1: DatabaseResource marks a name clean exactly when it contains no '/', joins the unmodified name then, and the '/'-free replacement with the dirty mark otherwise (a clean-marked name that still contains '/' is swallowed or split by path.Join); the empty name is the root resource")
@@ -54,6 +55,7 @@ func runC20(c *core.Ctx) {
 	c20Method(c, httpd)
 	c20Request(c, httpd)
 	c20Nearest(c, authp)
+	c20NewUser(c, authp)
 	c20Write(c, httpd)
 	c20Mux(c, httpd)
 	c20DBResource(c, authp)
@@ -273,6 +275,12 @@ func c20Authn(c *core.Ctx, httpd *packages.Package) {
 					}
 				}
 			}
+			if a.Op == token.EQL && strings.HasSuffix(a.L, ".sharedSecret") && a.R == `""` {
+				return "nosecret", false
+			}
+			if a.Op == token.EQL && a.R == "0" && strings.HasPrefix(a.L, "len(") && strings.HasSuffix(a.L, ".sharedSecret)") {
+				return "nosecret", false
+			}
 			// the bearer token's expiry claim: presence (comma-ok of the type assertion) and sign
 			if strings.Contains(a.Key, `["exp"].(float64)`) {
 				switch {
@@ -411,6 +419,10 @@ func c20Authn(c *core.Ctx, httpd *packages.Package) {
 		// the user named by the token may be served only on paths where the claim was found present and positive
 		if an.CallResultOf(user, "User", 0) {
 			nBearer++
+			if ns, d := a["nosecret"]; !d || ns {
+				c.Fail("C20.authn", cons+"#secret-configured", ev.Pos, "a bearer token is accepted on a path that did not establish that a shared secret is configured (decided: %v): the key handed to the JWT library is []byte(sharedSecret) whatever the secret, shared-secret defaults to \"\", so a token signed with the empty key is valid and its bearer is served as any user it names, without a password; path [%s]", d, p.Cond())
+				continue
+			}
 			present, d1 := a["exp:present"]
 			nonpos, d2 := a["exp:nonpositive"]
 			if !(d1 && present && d2 && !nonpos) {
@@ -702,6 +714,8 @@ func c20Nearest(c *core.Ctx, authp *packages.Package) {
 				return "hasprivs", false
 			case strings.HasSuffix(a.Key, "].1") && strings.Contains(a.Key, ".privileges["):
 				return "hit", false
+			case a.Op == token.EQL && a.R == "0" && strings.Contains(a.L, ".privileges[") && (strings.Contains(a.L, "].0 & ("+act+".Privilege | auth.AllPrivileges))") || strings.Contains(a.L, "].0 & (auth.AllPrivileges | "+act+".Privilege))")):
+				return "granted", true
 			case a.Op == token.EQL && a.R == "0" && strings.Contains(a.L, ".privileges[") && strings.Contains(a.L, "].0 & "+act+".Privilege)"):
 				return "grants", true
 			case a.Op == token.EQL && a.R == "auth.AllPrivileges" && strings.Contains(a.L, ".privileges["):
@@ -716,7 +730,17 @@ func c20Nearest(c *core.Ctx, authp *packages.Package) {
 		c.Undecided("C20.nearest", "AuthorizeAction", fn.Decl.Pos(), "%v", err)
 		return
 	}
-	an.CheckTable(c, "C20.nearest", "AuthorizeAction", paths, an.Table{Atoms: []string{"nopriv", "admin", "abs", "hasprivs", "hit", "grants", "all"},
+	// F55: "all" is one bit of the grant's mask; comparing the whole mask with AllPrivileges loses it when the grant lists other
+	// privileges too ({read, all} denied write)
+	for _, p := range paths {
+		for _, l := range p.Lits {
+			if l.Name == "all" {
+				c.Fail("C20.nearest", "AuthorizeAction#all-is-a-bit", l.Pos, "the all privilege is recognised by comparing the whole mask of the grant with AllPrivileges: a grant that lists all next to another privilege has a different mask and is not recognised as all")
+				return
+			}
+		}
+	}
+	an.CheckTable(c, "C20.nearest", "AuthorizeAction", paths, an.Table{Atoms: []string{"nopriv", "admin", "abs", "hasprivs", "hit", "granted"},
 		Outcome: func(p *an.Path) string {
 			if len(p.Rets) != 1 {
 				return "?"
@@ -737,7 +761,7 @@ func c20Nearest(c *core.Ctx, authp *packages.Package) {
 				return "allow"
 			case !a["abs"]:
 				return "invalid"
-			case a["hasprivs"] && a["hit"] && (a["grants"] || a["all"]):
+			case a["hasprivs"] && a["hit"] && a["granted"]:
 				return "allow"
 			}
 			return "deny"
@@ -1061,4 +1085,50 @@ func c20DBClean(c *core.Ctx, authp *packages.Package) {
 			}
 			return "clean"
 		}})
+}
+
+// c20NewUser: F56. NewUser cleans every grant's resource; two spellings of one resource must add up (ps[clean] |= mask), not
+// overwrite each other in map order.
+func c20NewUser(c *core.Ctx, authp *packages.Package) {
+	fn := c.Need("C20.newuser", "auth", "", "NewUser")
+	if fn == nil {
+		return
+	}
+	info := authp.TypesInfo
+	n := 0
+	ast.Inspect(fn.Decl.Body, func(nd ast.Node) bool {
+		as, ok := nd.(*ast.AssignStmt)
+		if !ok || len(as.Lhs) != 1 {
+			return true
+		}
+		ix, ok := ast.Unparen(as.Lhs[0]).(*ast.IndexExpr)
+		if !ok {
+			return true
+		}
+		tv, ok := info.Types[ix.X]
+		if !ok {
+			return true
+		}
+		m, ok := tv.Type.Underlying().(*types.Map)
+		if !ok {
+			return true
+		}
+		if nn := core.NamedOf(m.Elem()); nn == nil || nn.Obj().Name() != "Privilege" {
+			return true
+		}
+		// the key derives from path.Clean
+		clean := false
+		ast.Inspect(fn.Decl.Body, func(k ast.Node) bool {
+			if call, ok := k.(*ast.CallExpr); ok {
+				if f := core.Callee(info, call); f != nil && f.Pkg() != nil && f.Pkg().Path() == "path" && f.Name() == "Clean" {
+					clean = true
+				}
+			}
+			return true
+		})
+		n++
+		c.Check(clean && as.Tok == token.OR_ASSIGN, "C20.newuser", "NewUser#merge", as.Pos(), "NewUser stores a grant under the cleaned resource with %s (key cleaned: %v): two keys that clean to the same path (/a and /a/) overwrite each other in map iteration order, so the same privilege table gives different decisions from one construction to the next; the masks must be merged with |=", as.Tok, clean)
+		return true
+	})
+	c.Floor("C20.newuser", "stores into the privilege table in NewUser", n, 1)
 }
